@@ -90,7 +90,12 @@ lazy_static! {
 
         dt.iter().map(|x| x.to_diacritic()).collect()
     };
-    static ref CARDINALS_VEC: Vec<String> = CARDINALS_MAP.iter().map(|(k,_)| k.clone()).collect();
+    static ref CARDINALS_VEC: Vec<String> = {
+        // sorted, so that the grapheme chosen for a segment does not depend on the HashMap's iteration order
+        let mut v: Vec<String> = CARDINALS_MAP.iter().map(|(k,_)| k.clone()).collect();
+        v.sort();
+        v
+    };
     static ref CARDINALS_TRIE: Trie = {
         let mut m = Trie::new();
         CARDINALS_MAP.iter().for_each(|(k,_)| m.insert(k.as_str()));
